@@ -1,13 +1,14 @@
-\* leg A: all programs within the bound, all interleavings of concurrent copies; C06 invariants
+\* leg A: every program within the bound (profile "flow"; checks/C06.py substitutes the CONSTANTS of
+\* the other profiles), all interleavings of concurrent query copies; C06 invariants + termination
 SPECIFICATION FairSpec
 CONSTANTS
   MaxSeq = 2
   MaxRules = 2
-  MaxMatch = 1
+  MaxMatch = 0
   MKinds = {"T", "F", "E"}
   Negs = {TRUE, FALSE}
-  Acts = {"nop", "perr", "wpost", "wtwice", "wconc", "accept", "return", "jump", "goto"}
-  RejectCodes = {5}
+  Acts = {"nop", "accept", "return", "jump", "goto", "wpost", "reject"}
+  RejectCodes = {5, 3}
   MaxMulti = 1
   MaxConc = 1
   Sched = "free"
